@@ -22,12 +22,16 @@ def sh(cmd, cwd=None, env=None, timeout=900):
 
 
 def one(rdir, run_tests="--no-tests" not in sys.argv):
+    rdir = os.path.abspath(rdir)
     wt = os.path.dirname(os.path.dirname(rdir))
+    label_wt = wt
+    if not os.path.isdir(os.path.join(wt, "aw_core")):
+        wt = "/repo"  # a filed patch (/verif/benign/<name>): applied to the repository's HEAD
     tmp = tempfile.mkdtemp(prefix="rfv-")
     tree = tmp + "/tree"
     os.makedirs(tree)
     env = dict(os.environ, XDG_DATA_HOME=tmp + "/data", XDG_CONFIG_HOME=tmp + "/config", XDG_CACHE_HOME=tmp + "/cache", HOME=tmp, PYTHONPATH=tree)
-    out = {"refactor": f"{os.path.basename(wt)}-{os.path.basename(rdir)}", "dir": rdir}
+    out = {"refactor": (f"{os.path.basename(label_wt)}-{os.path.basename(rdir)}" if wt == label_wt else os.path.basename(rdir)), "dir": rdir}
     try:
         # a private copy of the pristine commit: the agent may still be editing its worktree
         code, o = sh(f"git -C {wt} archive HEAD | tar -x -C {tree}")
